@@ -358,9 +358,94 @@ fn long_chains(rep: &mut Report, ops: &[Op], seeds: &[Pool], stream: &mut Vec<St
     stream.push(format!("long-chains\t{}", total.load(Ordering::Relaxed)));
 }
 
+/// producers at the edges of their domains: what they return must still be valid input to glam
+/// (unit results pass is_normalized, and the consumer that asserts it does not panic)
+fn boundary_producers(rep: &mut Report) {
+    macro_rules! edge {
+        ($S:ident, $Q:ident, $V3:ident, $tiny:expr) => {{
+            let tn = stringify!($Q);
+            // vector-part magnitudes from the smallest subnormal up to 0.5, three per decade
+            let mut mags: Vec<$S> = vec![];
+            let mut m: f64 = $tiny;
+            while m < 0.6 { for k in [1.0, 2.5, 6.0] { mags.push((m * k) as $S); } m *= 10.0; }
+            let dirs: [[$S; 3]; 7] = [[1.0, 0.0, 0.0], [0.0, 1.0, 0.0], [0.0, 0.0, -1.0], [0.6, 0.0, 0.8], [0.0, -0.6, 0.8], [0.57735026, 0.57735026, 0.57735026], [-0.2, 0.3, 0.93273790530888]];
+            let nm = mags.len() as u64;
+            let mr = &mags;
+            rep.sweep(&format!("boundary producers/{tn} near the identity/{nm} vector-part magnitudes x 7 directions x 2 signs of w"), nm * 14, |idx, acc| {
+                let (e, d, sw) = (mr[(idx % nm) as usize], dirs[((idx / nm) % 7) as usize], if idx / nm / 7 == 0 { 1.0 as $S } else { -1.0 });
+                let w = (1.0 - (e as f64) * (e as f64)).sqrt() as $S * sw;
+                let q = <$Q>::from_xyzw(d[0] * e, d[1] * e, d[2] * e, w);
+                if !q.is_normalized() { return; }
+                acc.eval(true, (e as f64).to_bits() ^ idx);
+                let ctx = || format!("q={:?}", q);
+                let r = catch(|| {
+                    let (axis, angle) = q.to_axis_angle();
+                    (axis, angle, <$Q>::from_axis_angle(axis, angle))
+                });
+                match r {
+                    Err(p) => acc.fail(&format!("edge::{tn}::to_axis_angle -> from_axis_angle"), format!("{} panicked: {p}", ctx())),
+                    Ok((axis, angle, back)) => {
+                        if !axis.is_normalized() { acc.fail(&format!("edge::{tn}::to_axis_angle(axis is unit)"), format!("{} axis={:?} angle={:e} |axis|^2={:e}", ctx(), axis, angle, axis.length_squared())); }
+                        if !back.is_normalized() { acc.fail(&format!("edge::{tn}::from_axis_angle(to_axis_angle)"), format!("{} axis={:?} angle={:e} rebuilt={:?}", ctx(), axis, angle, back)); }
+                    }
+                }
+                match catch(|| <$Q>::from_scaled_axis(q.to_scaled_axis())) {
+                    Err(p) => acc.fail(&format!("edge::{tn}::to_scaled_axis -> from_scaled_axis"), format!("{} panicked: {p}", ctx())),
+                    Ok(b) => if !b.is_normalized() { acc.fail(&format!("edge::{tn}::from_scaled_axis(to_scaled_axis)"), format!("{} rebuilt={:?}", ctx(), b)); },
+                }
+                // interpolation and steering between the identity and q, products and inverse
+                for (site, r) in [
+                    ("slerp", catch(|| <$Q>::IDENTITY.slerp(q, 0.3))), ("lerp", catch(|| <$Q>::IDENTITY.lerp(q, 0.3))), ("rotate_towards", catch(|| <$Q>::IDENTITY.rotate_towards(q, (e * 0.5) as $S))),
+                    ("mul", catch(|| q * q)), ("inverse", catch(|| q.inverse())),
+                ] {
+                    match r {
+                        Err(p) => acc.fail(&format!("edge::{tn}::{site}"), format!("{} panicked: {p}", ctx())),
+                        Ok(b) => if !b.is_normalized() { acc.fail(&format!("edge::{tn}::{site}(unit)"), format!("{} result={:?} |r|^2={:e}", ctx(), b, b.length_squared())); },
+                    }
+                }
+                // from_rotation_arc between a unit vector and itself rotated by q (nearly parallel pair)
+                let u = <$V3>::new(0.36, 0.48, -0.8);
+                match catch(|| { let v = (q * u).normalize(); (<$Q>::from_rotation_arc(u, v), <$Q>::from_rotation_arc(u, -v), <$Q>::from_rotation_arc_colinear(u, v)) }) {
+                    Err(p) => acc.fail(&format!("edge::{tn}::from_rotation_arc(nearly parallel)"), format!("{} panicked: {p}", ctx())),
+                    Ok((a, b, c)) => for (k, r) in [a, b, c].iter().enumerate() { if !r.is_normalized() { acc.fail(&format!("edge::{tn}::from_rotation_arc(unit)"), format!("{} form {k} result={:?}", ctx(), r)); } },
+                }
+            });
+            // vectors of every magnitude: normalisation products are unit (or the documented fallback)
+            let mut vm: Vec<$S> = vec![];
+            let mut m: f64 = $tiny;
+            while m < 1e38 && (m as $S).is_finite() { vm.push(m as $S); vm.push((m * 3.0) as $S); m *= 100.0; }
+            let nv = vm.len() as u64;
+            let vr = &vm;
+            rep.sweep(&format!("boundary producers/{} of every magnitude/{nv} magnitudes x 7 directions", stringify!($V3)), nv * 7, |idx, acc| {
+                let (e, d) = (vr[(idx % nv) as usize], dirs[(idx / nv) as usize]);
+                let v = <$V3>::new(d[0] * e, d[1] * e, d[2] * e);
+                acc.eval(true, idx);
+                let ctx = || format!("v={:?}", v);
+                for (site, r) in [("try_normalize", catch(|| v.try_normalize())), ("normalize_or_zero", catch(|| { let n = v.normalize_or_zero(); if n == <$V3>::ZERO { None } else { Some(n) } })), ("normalize_or(X)", catch(|| Some(v.normalize_or(<$V3>::X))))] {
+                    match r {
+                        Err(p) => acc.fail(&format!("edge::{}::{site}", stringify!($V3)), format!("{} panicked: {p}", ctx())),
+                        Ok(Some(n)) => {
+                            if !n.is_normalized() { acc.fail(&format!("edge::{}::{site}(unit)", stringify!($V3)), format!("{} result={:?} |n|^2={:e}", ctx(), n, n.length_squared())); }
+                            // and the unit result feeds the consumers that assert it
+                            if let Err(p) = catch(|| (n.any_orthonormal_pair(), n.any_orthonormal_vector(), <$Q>::from_axis_angle(n, 0.7), <$V3>::Y.reflect(n), <$V3>::Y.project_onto_normalized(n))) {
+                                acc.fail(&format!("edge::{}::{site} -> consumers", stringify!($V3)), format!("{} n={:?} panicked: {p}", ctx(), n));
+                            }
+                        }
+                        Ok(None) => {}
+                    }
+                }
+            });
+        }};
+    }
+    edge!(f32, Quat, Vec3, 1e-45);
+    edge!(f64, DQuat, DVec3, 5e-324);
+}
+
 fn negative_table(rep: &mut Report) {
     // documented violations must panic with glam-assert and must not panic without it
-    let asserts_on = catch(|| Vec3::new(1.0, 2.0, 3.0).clamp_length(2.0, 1.0)).is_err();
+    // the build knows whether it enabled glam-assert: a probe would make a build whose assertions
+    // silently compile to nothing look consistent
+    let asserts_on = cfg!(feature = "assert") || (cfg!(feature = "dassert") && cfg!(debug_assertions));
     rep.extra.insert("glam_assert_enabled".into(), json!(asserts_on));
     let table: Vec<(&str, fn())> = vec![
         ("Quat::from_axis_angle(non-unit axis)", || { let _ = Quat::from_axis_angle(Vec3::new(1.0, 2.0, 3.0), 0.5); }),
@@ -394,7 +479,7 @@ fn negative_table(rep: &mut Report) {
 
 /// lane-wise preconditions: the documented violation may sit in any subset of the lanes
 fn negative_lane_patterns(rep: &mut Report) {
-    let asserts_on = catch(|| Vec3::new(1.0, 2.0, 3.0).clamp_length(2.0, 1.0)).is_err();
+    let asserts_on = cfg!(feature = "assert") || (cfg!(feature = "dassert") && cfg!(debug_assertions));
     macro_rules! clamp_pat {
         ($(($T:ident, $S:ident, $N:expr)),*) => {$(
             rep.sweep_seq(concat!("negative lane patterns/", stringify!($T), "::clamp(min > max in a lane subset)/2^N subsets"), 1u64 << $N, |idx, acc| {
@@ -470,6 +555,7 @@ fn main() {
         stream.push(format!("op#{i} {}\tcount={}\tsum={}", o.0, COUNTS[i].load(Ordering::Relaxed), SUMS[i].load(Ordering::Relaxed)));
     }
     long_chains(&mut rep, &opsv, &seedsv, &mut stream);
+    boundary_producers(&mut rep);
     negative_table(&mut rep);
     negative_lane_patterns(&mut rep);
     let path = format!("{}/work/C20.{}.{}.stream", VERIF_DIR, rep.args.cfg, rep.args.tier);
